@@ -242,6 +242,15 @@ func c13Case(r *evid.Run, tier string, idx int, g *rng.R) {
 	} {
 		addExpr(e)
 	}
+	// prefixed variable / function names: resolved through the bindings of each call
+	for _, e := range []xast.Expr{
+		xast.Fn("concat", xast.Var{Prefix: "p", Local: "v"}, xast.Lit{S: "-"}, xast.Call{Prefix: "p", Local: "f"}),
+		xast.Var{Prefix: "q", Local: "v"},
+		xast.Abs(xast.DS(), xast.S("child", xast.Test{Kind: xast.TNSAny, Prefix: "p"})),
+		xast.Fn("count", xast.Abs(xast.DS(), xast.S("child", xast.Test{Kind: xast.TNSAny, Prefix: "q"}))),
+	} {
+		addExpr(e)
+	}
 	if len(exprs) == 0 {
 		return
 	}
@@ -284,10 +293,24 @@ func c13Case(r *evid.Run, tier string, idx int, g *rng.R) {
 	mkHeld(nil, "none")
 	// shared binding maps, assigned CLI-style
 	sharedNS := map[string]string{"p": canonNS["p"], "q": canonNS["q"], "r": canonNS["r"]}
+	// a second environment binds the same prefixes to other URIs; both are used alternately
+	altNS := map[string]string{"p": canonNS["q"], "q": canonNS["r"], "r": canonNS["p"]}
 	sharedVars := map[xsel.XmlName]xsel.Result{}
 	sharedFns := map[xsel.XmlName]xsel.Function{}
+	for _, u := range []string{canonNS["p"], canonNS["q"], canonNS["r"]} {
+		uri := u
+		sharedVars[xsel.XmlName{Space: uri, Local: "v"}] = xsel.String("var@" + uri)
+		sharedFns[xsel.XmlName{Space: uri, Local: "f"}] = func(ctx xsel.Context, args ...xsel.Result) (xsel.Result, error) {
+			return xsel.String("fn@" + uri), nil
+		}
+	}
+	useAlt := false
 	apply := func(c *xsel.ContextSettings) {
-		c.NamespaceDecls = sharedNS
+		if useAlt {
+			c.NamespaceDecls = altNS
+		} else {
+			c.NamespaceDecls = sharedNS
+		}
 		c.Variables = sharedVars
 		c.FunctionLibrary = sharedFns
 	}
@@ -295,6 +318,9 @@ func c13Case(r *evid.Run, tier string, idx int, g *rng.R) {
 		var ks []string
 		for k, v := range sharedNS {
 			ks = append(ks, "ns:"+k+"="+v)
+		}
+		for k, v := range altNS {
+			ks = append(ks, "alt:"+k+"="+v)
 		}
 		for k, v := range sharedVars {
 			ks = append(ks, fmt.Sprintf("var:%v=%s", k, resultKey(v, nil)))
@@ -320,6 +346,7 @@ func c13Case(r *evid.Run, tier string, idx int, g *rng.R) {
 		sharedVars[xsel.XmlName{Local: "a"}] = ha.ns
 		sharedVars[xsel.XmlName{Local: "b"}] = hb.ns
 		before := mapsKey()
+		useAlt = g.P(40)
 		kind := g.Intn(10)
 		desc := ""
 		switch {
@@ -334,8 +361,18 @@ func c13Case(r *evid.Run, tier string, idx int, g *rng.R) {
 			}
 			res, err := Exec(start, &p.g, apply)
 			r.Eval(1)
-			desc = fmt.Sprintf("op %d: Exec(node#%d, %s) with $a=%s $b=%s", op, si, p.src, ha.label, hb.label)
-			key := fmt.Sprintf("%d|%d|%p|%p", ei, si, ha, hb)
+			desc = fmt.Sprintf("op %d: Exec(node#%d, %s) with $a=%s $b=%s alt-bindings=%v", op, si, p.src, ha.label, hb.label, useAlt)
+			// prefixed names must resolve through this call's bindings, whatever ran before
+			if strings.HasPrefix(p.src, "concat($p:v") && err == nil {
+				uri := sharedNS["p"]
+				if useAlt {
+					uri = altNS["p"]
+				}
+				if want := "var@" + uri + "-fn@" + uri; res.String() != want {
+					viol("determinism/bindings", fmt.Sprintf("%s returned %q, expected %q under this call's bindings", desc, res.String(), want), append(hist, desc))
+				}
+			}
+			key := fmt.Sprintf("%d|%d|%p|%p|%v", ei, si, ha, hb, useAlt)
 			rk := resultKey(res, err)
 			if f, ok := first[key]; ok {
 				r.Count("repeat_executions", 1)
